@@ -425,6 +425,12 @@ func rowsHave(rows map[string]any, until map[string]any) bool {
 			if k == "table" {
 				continue
 			}
+			if k == "prefix" {
+				id, _ := m["id"].(string)
+				ws, _ := v.(string)
+				ok = ok && strings.HasPrefix(id, ws)
+				continue
+			}
 			switch want := v.(type) {
 			case float64:
 				got, _ := m[k].(int64)
